@@ -488,12 +488,17 @@ func rangeScan[K nodeKey, V any, L nodeLeaf[V]](
 			return
 		}
 
-		var q []nodeRef
+		// depth is the number of key bytes consumed on the path to each node,
+		// so it travels with the stack entry
+		type entry struct {
+			ref   nodeRef
+			depth int
+		}
+		var q []entry
 
-		depth := 0
-		q = append(q, root)
+		q = append(q, entry{root, 0})
 		for len(q) != 0 {
-			n := q[len(q)-1]
+			n, depth := q[len(q)-1].ref, q[len(q)-1].depth
 			q = q[:len(q)-1]
 
 			if n.tag == nodeKindLeaf {
@@ -524,19 +529,21 @@ func rangeScan[K nodeKey, V any, L nodeLeaf[V]](
 				}
 			}
 
+			childDepth := depth + int(node.prefixLen) + 1
+
 			switch n.tag {
 			case nodeKind4:
 				n4 := (*node4)(n.pointer)
 
 				for i := int(n4.childrenLen) - 1; i >= 0; i-- {
-					q = append(q, n4.children[i])
+					q = append(q, entry{n4.children[i], childDepth})
 				}
 
 			case nodeKind16:
 				n16 := (*node16)(n.pointer)
 
 				for i := int(n16.childrenLen) - 1; i >= 0; i-- {
-					q = append(q, n16.children[i])
+					q = append(q, entry{n16.children[i], childDepth})
 				}
 
 			case nodeKind48:
@@ -547,7 +554,7 @@ func rangeScan[K nodeKey, V any, L nodeLeaf[V]](
 					if idx == 0 {
 						continue
 					}
-					q = append(q, n48.children[idx-1])
+					q = append(q, entry{n48.children[idx-1], childDepth})
 				}
 
 			case nodeKind256:
@@ -557,14 +564,12 @@ func rangeScan[K nodeKey, V any, L nodeLeaf[V]](
 					if n256.children[i].pointer == nil {
 						continue
 					}
-					q = append(q, n256.children[i])
+					q = append(q, entry{n256.children[i], childDepth})
 				}
 
 			default:
 				panic("shouldn't be possible!")
 			}
-
-			depth += int(node.prefixLen) + 1
 		}
 	}
 }
